@@ -69,14 +69,14 @@ Definition x_ok : bool -> bool -> ex -> option tk -> bool :=
      gen_tokenArrow gen_tokenMultiplication gen_tokenExtendedNot gen_tokenContains gen_tokenIdentifier gen_tokenLeftBracket
      x_kw_text gen_result_start gen_macro_results x_quote valid_template_path expanded tmpl.
 
-Definition x_printable : bool -> ex -> bool :=
+Definition x_printable : bool -> option tk -> ex -> bool :=
   printable gen_op_string gen_bin_prec gen_un_prec gen_unary_tokens gen_binary_tokens gen_OperatorReceive gen_OperatorPointer
      gen_OperatorExtendedNot gen_OperatorNotContains gen_StringLiteral gen_IntLiteral gen_FloatLiteral
      gen_NoDirection gen_ReceiveDirection gen_SendDirection
      gen_tokenArrow gen_tokenMultiplication gen_tokenExtendedNot gen_tokenContains gen_tokenIdentifier gen_tokenLeftBracket
      x_kw_text gen_result_start gen_macro_results gen_keywords gen_tmpl_keywords x_quote valid_template_path expanded tmpl.
 
-Definition x_printable_type : ex -> bool :=
+Definition x_printable_type : option tk -> ex -> bool :=
   printable_type gen_op_string gen_bin_prec gen_un_prec gen_unary_tokens gen_binary_tokens gen_OperatorReceive gen_OperatorPointer
      gen_OperatorExtendedNot gen_OperatorNotContains gen_StringLiteral gen_IntLiteral gen_FloatLiteral
      gen_NoDirection gen_ReceiveDirection gen_SendDirection
